@@ -63,6 +63,7 @@ func (p *PubSub) handleNewStream(s network.Stream) {
 			delete(p.inboundStreams, peer)
 		}
 		p.inboundStreamsMx.Unlock()
+		verifYield("inbound-unregistered", peer)
 
 		if sentNewStream {
 			select {
@@ -78,6 +79,7 @@ func (p *PubSub) handleNewStream(s network.Stream) {
 	prev, hasPrev := p.inboundStreams[peer]
 	p.inboundStreams[peer] = inboundHandler{s: s, done: done}
 	p.inboundStreamsMx.Unlock()
+	verifYield("inbound-registered", peer)
 
 	if hasPrev {
 		p.logger.Debug("duplicate inbound stream; replacing handler", "peer", peer)
@@ -164,6 +166,7 @@ func (p *PubSub) notifyPeerDead(pid peer.ID) {
 
 func (p *PubSub) handleNewPeer(ctx context.Context, pid peer.ID, outgoing *rpcQueue) {
 	s, err := p.host.NewStream(ctx, pid, p.rt.Protocols()...)
+	verifYield("outbound-opened", pid)
 	if err != nil {
 		p.logger.Debug("error opening new stream to peer", "err", err, "peer", pid)
 
